@@ -124,7 +124,7 @@ EXTRA2 = {
  'C02': 'Also: a dimension length computed from slice.indices() is checked on 15 sample slices (reversed, strided, empty); np.resize/append/insert/delete/pad/broadcast_to are mask droppers (calibrated).',
  'C04': 'Also: a sequence argument that is materialised with list() is iterated nowhere else (one-shot iterables); global attributes come from the first file; variables copied through the converter into an in-memory file keep their mask (R-PASSMASK).',
  'C05': 'Also: no dimension object of an input is stored in the dimension table of a possibly new file.',
- 'C06': 'Also: finite case analysis of the condition that applies a positional mask to a variable (10 cases); a structure-only copy keeps the coordinate keys.',
+ 'C06': 'Also: finite case analysis of the condition that applies a positional mask to a variable (10 cases); a structure-only copy keeps the coordinate keys. Every masked_* step of mask() is checked against a numpy.ma contract table (keeps / rebuilds the incoming mask); the masked_values step it flagged is fixed in /repo (7bb5efd).',
  'C07': 'Also: every parameter of the converter functions is read (options forwarded); the 0-d branch stores the array, never an extracted scalar.',
  'C08': 'Also: century pivot and offsets decode 00-69 as 20xx and 70-99 as 19xx per element; boundary keys are split at the first underscore only; writers never write storage of their input (provenance); dtype-preserving astype is not a conversion; cloud/rain record order is a literal list; every value a CAMx writer emits has its byte order fixed by the writer, never that of an input attribute (R-BYTEORDER, 70 sites).',
  'C09': 'Also: an astype that keeps the input item size gives a symbolic item size, so marker = payload fails as a polynomial identity.',
